@@ -176,6 +176,23 @@ pub fn c10(ctx: &Ctx, rep: &mut Report) {
         let exhaustive = g < exh_total;
         let (n, width) = if exhaustive {
             ((g / 5) as usize, (g % 5) as usize + 1)
+        } else if !ctx.miri && rng.chance(1, 150) {
+            // large sequences: beyond any internal chunk size a writer may use, lengths that are
+            // multiples of the width, powers of two; also very large widths
+            let width = *rng.pick(&[1usize, 7, 60, 64, 70, 80, 100, 255, 256, 1000, 2047, 2048, 4096, 65535, 65536, 70000]);
+            let base = match rng.below(4) {
+                0 => 1usize << rng.range(13, 18),
+                1 => rng.range(8193, 40_000),
+                2 => rng.range(40_000, 200_000),
+                _ => rng.range(2, 9) * 8192,
+            };
+            let n = match rng.below(3) {
+                0 => (base / width).max(1) * width, // exact multiple of the width
+                1 => (base / width).max(1) * width + rng.range(0, 2) - 1,
+                _ => base,
+            };
+            rep.count("large_sequences");
+            (n, width)
         } else {
             let width = *rng.pick(&[1usize, 2, 3, 4, 5, 6, 7, 8, 9, 10, 11, 12, 13, 14, 15, 16, 17, 60, 80]);
             let n = match rng.below(4) {
@@ -364,9 +381,36 @@ pub fn c11(ctx: &Ctx, rep: &mut Report) {
             let k = 1 + rng.below(if ctx.miri { 3 } else { 20 });
             let mut recs = vec![];
             let mut out = vec![];
-            for _ in 0..k {
-                let head = gen_head_domain(&mut rng, 24);
-                let n = rng.skewed(30);
+            for j in 0..k {
+                // a quarter of the records sweep the total size (id + description + sequence + quality)
+                // through 0..1300 bytes, one value per case, so that every exact size is hit
+                let sweep = j == 0 && idx % 8 < 2;
+                let (head, n) = if sweep {
+                    let total = ((idx / 8) as usize * 2 + (idx % 8) as usize) % 1300;
+                    let id_len = rng.below(total.min(40) + 1);
+                    let with_desc = rng.chance(3, 4);
+                    let rest = total - id_len;
+                    let desc_len = if with_desc { rng.below(rest.min(80) + 1) } else { 0 };
+                    let s2 = rest - desc_len;
+                    // an odd remainder goes into the description (or the id)
+                    let (desc_len, id_len) = if s2 % 2 == 1 {
+                        if with_desc { (desc_len + 1, id_len) } else { (desc_len, id_len + 1) }
+                    } else {
+                        (desc_len, id_len)
+                    };
+                    let mut h: Vec<u8> = (0..id_len).map(|k| b"abcXYZ019_"[k % 10]).collect();
+                    if with_desc {
+                        h.push(b' ');
+                        h.extend((0..desc_len).map(|k| b"desc text>@+"[k % 12]));
+                        while h.last() == Some(&b'\r') {
+                            h.pop();
+                        }
+                    }
+                    rep.count("size_sweep_records");
+                    (h, s2 / 2)
+                } else {
+                    (gen_head_domain(&mut rng, 24), rng.skewed(30))
+                };
                 let seq: Vec<u8> = (0..n).map(|_| *rng.pick(b"ACGTN@+> ")).collect();
                 let qual: Vec<u8> = (0..n).map(|_| b'!' + rng.below(90) as u8).collect();
                 let which = rng.below(4);
